@@ -1,4 +1,5 @@
 import A2lVerif.Lemmas.Sort15
+import A2lVerif.Lemmas.Sort15Order
 /-!
 # C15 — sort_new_items(): stable placement over arbitrarily long edit histories
 
@@ -69,6 +70,72 @@ theorem writer_places_odd_partial (p e q : Elem) (u : Nat) (hp : p.uid = 2 * u) 
 theorem writeOrder_perm_sorted (m : Module) :
     (writeOrder m).Perm m.all ∧ (writeOrder m).Pairwise (fun a b => writerLe a b = true) :=
   ⟨List.mergeSort_perm _ _, pairwise_mergeSort_writerLe _⟩
+
+/-! ## the property's first sentence, at the level of the written text -/
+
+/-- placed = has a position of its own; after a call, the elements that were placed before it are those with an even uid
+    other than 0 (new elements get an odd uid or stay at 0); `dblE` doubles the uid and changes nothing else -/
+example (e : Elem) : placed e = (e.uid != 0) := rfl
+example (e : Elem) : wasPlaced e = (e.uid != 0 && e.uid % 2 == 0) := rfl
+example (e : Elem) : dblE e = { e with uid := 2 * e.uid } := rfl
+
+/-- the placed uids identify their elements (true after a load and after `sort()`: `sort_uids_increasing`) -/
+def PlacedDistinct (m : RModule) : Prop :=
+  ∀ a ∈ m.toModule.all, ∀ b ∈ m.toModule.all, a.uid ≠ 0 → a.uid = b.uid → a = b
+
+/-- **`sort_new_items()` never changes the relative output order of the elements that were already placed** — whenever
+    the call returns (no overflow): the placed elements are written in the same sequence as before, with nothing but
+    their uids (doubled) changed -/
+theorem placed_order_stable_partial (m m' : RModule) (h : sortNewItems m = .ok m') (hwf : SinglesWF m)
+    (hd : PlacedDistinct m) :
+    (writeOrder m'.toModule).filter wasPlaced = ((writeOrder m.toModule).filter placed).map dblE :=
+  writeOrder_placed_stable h hwf hd
+
+/-- in particular their sequence of (tag, name, content) is the same -/
+theorem placed_keys_stable_partial (m m' : RModule) (h : sortNewItems m = .ok m') (hwf : SinglesWF m)
+    (hd : PlacedDistinct m) :
+    ((writeOrder m'.toModule).filter wasPlaced).map Elem.key = ((writeOrder m.toModule).filter placed).map Elem.key := by
+  rw [placed_order_stable_partial m m' h hwf hd, List.map_map]
+  rfl
+
+/-- **a new element is written directly behind the last placed element of its kind**: whatever the writer puts between
+    the element with uid 2u (the doubled last placed one) and a new element with uid 2u+1 has one of these two uids —
+    with distinct placed uids these are the other new elements of the same list -/
+theorem nothing_between_last_placed_and_new (es l1 mid l2 : List Elem) (p e : Elem) (u : Nat) (hu : u ≠ 0)
+    (hs : es.Pairwise (fun a b => writerLe a b = true)) (hes : es = l1 ++ p :: (mid ++ e :: l2))
+    (hp : p.uid = 2 * u) (he : e.uid = 2 * u + 1) : ∀ y ∈ mid, y.uid = 2 * u ∨ y.uid = 2 * u + 1 := by
+  intro y hy
+  subst hes
+  have h1 := (List.pairwise_append.1 hs).2.1
+  rw [List.pairwise_cons] at h1
+  have hpy : writerLe p y = true := h1.1 y (List.mem_append_left _ hy)
+  have h2 := (List.pairwise_append.1 h1.2).2.2 y hy e List.mem_cons_self
+  rw [writerLe_eq, lexLe_iff] at hpy h2
+  omega
+
+/-- ... applied to the writer's output -/
+theorem new_directly_behind_last_placed_partial (m : Module) (l1 mid l2 : List Elem) (p e : Elem) (u : Nat) (hu : u ≠ 0)
+    (hw : writeOrder m = l1 ++ p :: (mid ++ e :: l2)) (hp : p.uid = 2 * u) (he : e.uid = 2 * u + 1) :
+    ∀ y ∈ mid, y.uid = 2 * u ∨ y.uid = 2 * u + 1 :=
+  nothing_between_last_placed_and_new _ l1 mid l2 p e u hu (writeOrder_perm_sorted m).2 hw hp he
+
+/-- non-vacuity: one placed MEASUREMENT (uid 4), one new one, one placed UNIT (uid 6) -/
+def demoM : RModule :=
+  { sections := [⟨.objectList, ⟨.byName, [⟨"MEASUREMENT", "new", 0, 0, 1⟩, ⟨"MEASUREMENT", "old", 4, 10, 2⟩]⟩⟩,
+                 ⟨.objectList, ⟨.byName, [⟨"UNIT", "u", 6, 20, 3⟩]⟩⟩], comments := [] }
+
+example : SinglesWF demoM ∧ PlacedDistinct demoM ∧ ∃ m', sortNewItems demoM = .ok m' := by
+  refine ⟨?_, ?_, ?_⟩
+  · intro r hr hs
+    simp [demoM] at hr
+    rcases hr with rfl | rfl <;> simp at hs
+  · intro a ha b hb hne he
+    simp [demoM, Module.all, RModule.toModule] at ha hb
+    rcases ha with rfl | rfl | rfl <;> rcases hb with rfl | rfl | rfl <;> simp_all
+  · apply sni_ok_partial
+    intro e he
+    simp [demoM, Module.all, RModule.toModule] at he
+    rcases he with rfl | rfl | rfl <;> simp [u32max]
 
 /-- **k consecutive calls**: as long as no call overflows, a placed uid grows exactly by the factor 2^k, for every
     section rule (object lists, optional singles, IF_DATA / USER_RIGHTS, comments).
